@@ -82,7 +82,7 @@ def resolve_ifs_rules(run):
         sw = None
         for b in sorted(f.reachable()):
             tt = f.blocks[b]["term"]
-            if tt["k"] == "switch" and op_local(tt["discr"]) is not None:
+            if tt["k"] == "switch" and op_place(tt["discr"]) is not None:
                 d = deep(f, tt["discr"], 6)
                 if re.search(r"eval_simple\(.*\).*@Bool\.0$", d) and (f.dominates(b, tsp[0]) or f.dominates(b, fsp[0])) and f.dominates(rb, b):
                     ft = [tg for v, tg in tt["targets"] if v == "0"]
@@ -155,22 +155,14 @@ def leftover_rules(run):
     if okm:
         cb, ct = ec[0]
         okm = "DirectiveIf.0.condition_expr" in deep(f, ct["args"][3], 6)
-        # Ok outcome -> explicit error
+        # Ok outcome -> explicit error (match / if let / is_ok)
+        from rules_sym import result_tests
         found = False
-        for b in sorted(reg):
-            tt = f.blocks[b]["term"]
-            if tt["k"] == "switch" and op_local(tt["discr"]) is not None:
-                o = f.origin_local(op_local(tt["discr"]))
-                if o[0] == "discr" and "eval_certain" in deep(f, o[1], 4):
-                    vs = o[2].get("variants") or {}
-                    for v, tg in tt["targets"]:
-                        if vs.get(v) == "Ok":
-                            r2 = T.dominated_region(f, tg, b)
-                            if report_error_in_region(f, r2):
-                                found = True
-                    if not found and any(vs.get(v) == "Err" for v, tg in tt["targets"]):
-                        r2 = T.dominated_region(f, tt["otherwise"], b)
-                        found = report_error_in_region(f, r2)
+        for sb2, ok_e, err_e in result_tests(f, lambda d: "eval_certain" in d):
+            if sb2 in reg:
+                r2 = T.dominated_region(f, ok_e, sb2)
+                if report_error_in_region(f, r2):
+                    found = True
         okm = okm and found
     run.check(okm, R, R + "|leftover|message", f.loc(), "the undecided condition is re-evaluated strictly (its own error is shown) and, when that succeeds, `unresolved condition` is reported",
               "check_leftover_ifs can fail without a message for a condition whose strict evaluation succeeds")
